@@ -15,16 +15,17 @@ typedef struct {
     int    kind; /* file kind */
     tc_mut m;
     int    must; /* 1: hdiff must flag it */
-    char   desc[96];
+    char   desc[160];
+    tc_mut ma; /* applied to the FIRST file (none for the single-point cases): the two files then hold different sets of objects */
 } mutcase_t;
-static mutcase_t MC[600];
+static mutcase_t MC[900];
 static int       NMC;
 
 static void
 addm(int kind, int mk, int obj, int pos, int must, const char *fmt, ...)
 {
     va_list ap;
-    if (NMC >= 600)
+    if (NMC >= 900)
         return;
     MC[NMC].kind   = kind;
     MC[NMC].m.kind = mk, MC[NMC].m.obj = obj, MC[NMC].m.pos = pos;
@@ -69,6 +70,35 @@ build_mutations(void)
                 addm(kind, 7, k, 0, 0, "attribute of image_%d", k);
                 addm(kind, 9, 10 + k, 0, 1, "image_%d removed", k);
             }
+        /* the two files hold different sets of objects (one more or one fewer in the first file) AND one element of an object
+           they share differs */
+        for (int r = -1; r < nsds && r < 3; r++)
+            for (int k = 0; k < nsds; k++) {
+                int idx = tc_sds_index(kind, k);
+                if (k == r || TC_SDS[idx].layout == 6)
+                    continue;
+                addm(kind, 1, k, 1, 1, "%s only in the %s file, middle element of SDS %s differs", r < 0 ? "an added SDS" : TC_SDS[tc_sds_index(kind, r)].name, r < 0 ? "first" : "second", TC_SDS[idx].name);
+                MC[NMC - 1].ma = r < 0 ? (tc_mut){8, 0, 0} : (tc_mut){9, r, 0};
+            }
+        /* the two files hold the same data sets, created in a different order, and one element of one of them differs */
+        if (nsds >= 2) {
+            addm(kind, 0, 0, 0, 0, "same content, data sets created in another order in the first file");
+            MC[NMC - 1].ma = (tc_mut){12, 0, 0};
+        }
+        if (nsds >= 2)
+            for (int k = 0; k < nsds; k++) {
+                int idx = tc_sds_index(kind, k);
+                if (TC_SDS[idx].layout == 6)
+                    continue;
+                addm(kind, 1, k, 1, 1, "data sets created in another order in the first file, middle element of SDS %s differs", TC_SDS[idx].name);
+                MC[NMC - 1].ma = (tc_mut){12, 0, 0};
+            }
+        if (kind == 2 || kind == 5)
+            for (int r = 0; r < 2; r++)
+                for (int k = r + 1; k < 3; k++) {
+                    addm(kind, 5, k, 1, 1, "image_%d only in the second file, middle pixel component of image_%d differs", r, k);
+                    MC[NMC - 1].ma = (tc_mut){9, 10 + r, 0};
+                }
         if (kind == 3 || kind == 5) {
             for (int k = 0; k < 2; k++) {
                 for (int p = 0; p < 3; p++)
@@ -85,13 +115,12 @@ case_hdiff(long idx, void *ctx)
 {
     (void)ctx;
     mutcase_t *c = &MC[idx];
-    int cfg[5] = {0, c->kind, c->m.kind, c->m.obj, c->m.pos};
-    mc_set_config(cfg, 5, "family=hdiff");
+    int cfg[7] = {0, c->kind, c->m.kind, c->m.obj, c->m.pos, c->ma.kind, c->ma.obj};
+    mc_set_config(cfg, 7, "family=hdiff");
     snprintf(g_case, sizeof g_case, "file kind %d, %s", c->kind, c->desc);
     mc_set_case("%s", g_case);
     tc_workdir("C19", idx);
-    tc_mut none = {0, 0, 0};
-    if (tc_generate(tc_path("a.hdf"), c->kind, none) || tc_generate(tc_path("b.hdf"), c->kind, c->m)) {
+    if (tc_generate(tc_path("a.hdf"), c->kind, c->ma) || tc_generate(tc_path("b.hdf"), c->kind, c->m)) {
         mc_harness_error("cannot generate files for %s", g_case);
         return;
     }
@@ -135,7 +164,7 @@ case_hdiff(long idx, void *ctx)
                 mc_violation(sig, "%s: hdiff F F' exits %d but hdiff F' F exits %d", g_case, r1, r2);
             }
             else if (c->must && r1 == 0) {
-                snprintf(sig, sizeof sig, "hdiff:difference-not-reported:%s", CLS[c->m.kind]);
+                snprintf(sig, sizeof sig, "hdiff:difference-not-reported:%s%s", CLS[c->m.kind], c->ma.kind == 12 ? "@object-order-differs" : c->ma.kind ? "@object-sets-differ" : "");
                 mc_violation(sig, "%s: the files differ (%s) but hdiff exits 0 in both orders", g_case, msg);
             }
             else if (r1 != 0 && r1 != 1) {
@@ -145,7 +174,7 @@ case_hdiff(long idx, void *ctx)
             mc_count(r1 ? "mutations_flagged" : "mutations_not_flagged(optional classes)", 1);
             mc_outcome(mc_hash_i(mc_hash_i(MC_H0, c->m.kind), r1));
             /* thorough: the restricted comparison modes must still see a difference in their own class */
-            if (g_thorough && c->must && c->m.kind >= 1 && c->m.kind <= 4) {
+            if (g_thorough && c->must && c->m.kind >= 1 && c->m.kind <= 4 && !c->ma.kind) {
                 static const char *MODE[] = {"", "-d", "-s", "-g", "-D"};
                 char *a3[] = {(char *)MODE[c->m.kind], "a.hdf", "b.hdf", NULL}, *o3 = NULL;
                 int   r3 = tc_run("hdiff", a3, &o3);
@@ -756,7 +785,8 @@ C19_main(const char *tier, const char *replay)
             return 2;
         if (cfg[0] == 0) {
             for (int i = 0; i < NMC; i++)
-                if (MC[i].kind == cfg[1] && MC[i].m.kind == cfg[2] && MC[i].m.obj == cfg[3] && MC[i].m.pos == cfg[4]) {
+                if (MC[i].kind == cfg[1] && MC[i].m.kind == cfg[2] && MC[i].m.obj == cfg[3] && MC[i].m.pos == cfg[4] && MC[i].ma.kind == (ncfg >= 7 ? cfg[5] : 0) &&
+                    MC[i].ma.obj == (ncfg >= 7 ? cfg[6] : 0)) {
                     case_hdiff(i, NULL);
                     break;
                 }
